@@ -74,6 +74,13 @@ def synth(data, kind):
     if end <= 0:
         return data
     block = data[start:end]
+    if kind == 'trailing':
+        # the time line printed once more after the last edition (as the real listings do at the end of the job)
+        last = data.rfind(b'simulation time')
+        if last < 0:
+            return data
+        eol = data.find(b'\n', last)
+        return data[:eol + 1] + b'\n simulation time (s): 77\n' + data[eol + 1:]
     if kind == 'twice':
         return data[:end] + b' batch number : 777\n' + block.replace(b'Edition after batch number', b'Edition after batch number') + data[end:]
     return data
@@ -93,11 +100,17 @@ def gen(rng, tier, run):
         off = rng.randrange(a, b + 1)
     else:
         off = rng.randrange(0, len(info['data']) + 1)
+    variant = 'twice' if rng.random() < 0.1 else 'trailing' if rng.random() < 0.12 else 'plain'
+    if variant == 'trailing':
+        data = synth(info['data'], 'trailing')
+        pos = data.rfind(b'\n simulation time (s): 77\n')
+        if pos >= 0 and rng.random() < 0.6:
+            off = rng.randrange(pos + 1, pos + 28)
+        return {'file': name, 'offset': min(off, len(data)), 'variant': 'trailing', 'fresh': False}
     fresh = rng.random() < 0.012
     if fresh and rng.random() < 0.5:
         off = len(info['data'])            # the complete listing, first thing parsed by a process
-    return {'file': name, 'offset': min(off, len(info['data'])), 'variant': 'twice' if rng.random() < 0.1 else 'plain',
-            'fresh': fresh}
+    return {'file': name, 'offset': min(off, len(info['data'])), 'variant': variant, 'fresh': fresh}
 
 
 def exhaustive(tier, run):
@@ -203,15 +216,28 @@ def scan_and_parse(path, want_results=True):
         signal.signal(signal.SIGALRM, old)
 
 
+_TMP = {}
+
+
+def work_path(name):
+    """one path per role for the whole process: a listing is re-read at the same path as it grows, and other listings are
+    read at that path later (nothing may be remembered from one reading to the next)"""
+    if 'dir' not in _TMP:
+        _TMP['dir'] = tempfile.mkdtemp(prefix='c11-')
+        import atexit
+        import shutil
+        atexit.register(shutil.rmtree, _TMP['dir'], True)
+    return os.path.join(_TMP['dir'], name)
+
+
 def complete_result(case):
     key = (case['file'], case.get('variant', 'plain'))
     if key not in _COMPLETE:
         full, _ = content(case)
-        with tempfile.TemporaryDirectory() as tmp:
-            path = os.path.join(tmp, 'full.res')
-            with open(path, 'wb') as fobj:
-                fobj.write(full)
-            _COMPLETE[key] = scan_and_parse(path)
+        path = work_path('full.res')
+        with open(path, 'wb') as fobj:
+            fobj.write(full)
+        _COMPLETE[key] = scan_and_parse(path)
     return _COMPLETE[key]
 
 
@@ -250,13 +276,12 @@ def run_impl(case, run):
     try:
         _full, prefix = content(case)
         full_res = complete_result(case)
-        with tempfile.TemporaryDirectory() as tmp:
-            path = os.path.join(tmp, 'cut.res')
-            with open(path, 'wb') as fobj:
-                fobj.write(prefix)
-            out = scan_and_parse(path)
-            if case.get('fresh'):
-                out['fresh'] = run_fresh(path)
+        path = work_path('listing.res')
+        with open(path, 'wb') as fobj:
+            fobj.write(prefix)
+        out = scan_and_parse(path)
+        if case.get('fresh'):
+            out['fresh'] = run_fresh(path)
         # compare each edition that parses with the same edition of the complete listing
         out['identical'] = {}
         for key, res in out.get('parse', {}).items():
